@@ -75,6 +75,11 @@ impl A {
     }
     fn from_value(v: &Value) -> Option<A> {
         let shape: Vec<usize> = v.shape.iter().copied().collect();
+        // results beyond 20000 elements (range of a large number met on the way) are outside the
+        // tie's size class: the case is rejected and counted, like a non-integer result
+        if shape.iter().product::<usize>() > 20000 {
+            return None;
+        }
         let d = match v {
             Value::Num(a) => {
                 let mut out = Vec::new();
